@@ -236,7 +236,114 @@ def run_conv(c):
     return res
 
 
-RUN = {"dense": run_dense, "direct": run_direct, "lateral": run_lateral, "conv": run_conv}
+# ---------------------------------------------------------------- sequences: forward / re-parameterise / forward ...
+def build_seq(c, W, b):
+    """a connection of kind c["conn"] with the given flat weights / bias (twin construction uses other values)"""
+    k = c["conn"]
+    sdt = float(c["syn"].get("dt", 1.0))
+    kw = dict(synapse=mksyn(c["syn"]), bias=c["bias"], delay=c["delay"], batch_size=c["B"])
+    if k == "dense":
+        I, O = math.prod(c["inshape"]), math.prod(c["outshape"])
+        return LinearDense(tuple(c["inshape"]), tuple(c["outshape"]), sdt, weight_init=const_init(W, [O, I]),
+                           bias_init=const_init(b), **kw)
+    if k == "direct":
+        return LinearDirect(tuple(c["shape"]), sdt, weight_init=const_init(W), bias_init=const_init(b), **kw)
+    if k == "lateral":
+        n = math.prod(c["shape"])
+        return LinearLateral(tuple(c["shape"]), sdt, weight_init=const_init(W, [n, n]), bias_init=const_init(b), **kw)
+    return Conv2D(c["H"], c["W"], c["C"], c["F"], sdt, tuple(c["k"]), stride=tuple(c["s"]), padding=tuple(c["p"]),
+                  dilation=tuple(c["d"]), weight_init=const_init(W, [c["F"], c["C"]] + list(c["k"])), bias_init=const_init(b), **kw)
+
+
+def seq_op(c, conn, op):
+    """one re-parameterisation through a public route"""
+    k = op[0]
+    if k == "none":
+        return
+    if k == "set":          # property setter
+        p = getattr(conn, op[1])
+        setattr(conn, op[1], tens(op[2], list(p.shape)))
+    elif k == "upd":        # trainer-style: accumulate on the Updater, apply through Updatable.update
+        p = getattr(conn, op[1])
+        acc = getattr(conn.updater, op[1])
+        if op[2] is not None:
+            acc.pos = tens(op[2], list(p.shape))
+        if op[3] is not None:
+            acc.neg = tens(op[3], list(p.shape))
+        conn.update()
+    elif k == "inplace_add":
+        p = getattr(conn, op[1])
+        with torch.no_grad():
+            p.add_(tens(op[2], list(p.shape)))
+    elif k == "inplace_copy":
+        p = getattr(conn, op[1])
+        with torch.no_grad():
+            p.copy_(tens(op[2], list(p.shape)))
+    elif k == "data_index":  # conn.weight.data[...] = v  (element-wise write into the storage)
+        p = getattr(conn, op[1])
+        p.data.view(-1)[int(op[2])] = float(op[3])
+    elif k == "load":       # load_state_dict from a twin built with other parameter values
+        twin = build_seq(c, op[1], op[2])
+        twin.updater = twin.defaultupdater()
+        KEEP.append(twin)
+        conn.load_state_dict(twin.state_dict())
+    elif k == "to":
+        if op[1] == "f64":
+            conn.to(torch.float64)
+        elif op[1] == "cpu":
+            conn.to("cpu")
+        elif op[1] == "double":
+            conn.double()
+        else:                # float32 and back: parameters are rounded to binary32
+            conn.to(torch.float32)
+            conn.to(torch.float64)
+    else:
+        raise AssertionError(k)
+
+
+def run_seq(c):
+    try:
+        conn = build_seq(c, c["Wf"], c["b"])
+    except Exception as e:  # noqa
+        return err("ctor", e)
+    KEEP.append(conn)
+    conn.updater = conn.defaultupdater()
+    res = {"ok": 1, "outshape": [int(v) for v in conn.outshape], "rounds": []}
+    for rd in c["rounds"]:
+        st = {}
+        try:
+            seq_op(c, conn, rd["op"])
+        except Exception as e:  # noqa
+            st = err("op", e)
+            res["rounds"].append(st)
+            continue
+        st["w"], st["w_shape"] = flat(conn.weight), shp(conn.weight)
+        st["b"] = None if conn.bias is None else flat(conn.bias)
+        st["d"] = None if conn.delay is None else flat(conn.delay)
+        x = syn_input(c["syn"], tens(rd["x"], c["xshape"]))
+        try:
+            out = conn(x)
+        except Exception as e:  # noqa
+            st.update(err("fwd", e))
+            res["rounds"].append(st)
+            continue
+        st["ok"] = 1
+        st["out"], st["out_shape"] = flat(out), shp(out)
+        cur = conn.synapse.current
+        st["cur"], st["cur_shape"] = flat(cur), shp(cur)
+        # the parameters the connection reports AFTER the step as well (forward must not change them)
+        st["w_after"] = flat(conn.weight)
+        if c["conn"] == "conv":
+            sdt = float(c["syn"].get("dt", 1.0))
+            scale = 1.0 if c["syn"]["t"] == "dplus" else float(c["syn"]["Q"]) / sdt
+            ref = TF.conv2d(x.to(torch.float64) * scale, conn.weight, conn.bias, stride=tuple(c["s"]),
+                            padding=tuple(c["p"]), dilation=tuple(c["d"]))
+            st["ref"] = flat(ref)
+        res["rounds"].append(st)
+    return res
+
+
+RUN = {"seq": run_seq, "dense": run_dense, "direct": run_direct, "lateral": run_lateral, "conv": run_conv}
 
 
 def handler(payload):
